@@ -822,7 +822,66 @@ fn case(excl_syslog_year: bool) -> impl Strategy<Value = Case> {
     (proptest::collection::vec(stmt(excl_syslog_year), 1..=8), 0..ZONES.len() as u8, 1..ZONES.len() as u8, 0u8..3).prop_map(|(stmts, za, d, store)| Case { stmts, za, zb: (za + d) % ZONES.len() as u8, store })
 }
 
+/// Unix-seconds text names an instant: `parse_timestamp(text, "%s")` must not depend on the
+/// configured zone.
+#[derive(Clone, Debug, Serialize, Deserialize)]
+pub struct UnixCase {
+    pub secs: i64,
+    /// sub-second digits appended with `%.f` (0 = plain `%s`)
+    pub nanos: u32,
+    pub zone_a: u8,
+    pub zone_b: u8,
+}
+
+fn check_unix(c: &UnixCase, exclude_repeated_hour: bool) -> V {
+    use chrono::TimeZone as _;
+    let t = chrono::Utc.timestamp_opt(c.secs, c.nanos).single().expect("in range");
+    // known finding (shared root cause with C35 D39): an instant whose wall-clock reading is
+    // ambiguous in the configured zone cannot be parsed with `%s`
+    let ambiguous = [c.zone_a, c.zone_b].iter().any(|z| timez::local_map(*z, &timez::wall_clock(*z, &t)).single().is_none());
+    if exclude_repeated_hour && ambiguous {
+        return V::excluded("c36_unix_seconds_repeated_hour");
+    }
+    let (text, fmt) = if c.nanos == 0 { (format!("{}", c.secs), "%s") } else { (format!("{}.{:09}", c.secs, c.nanos), "%s%.f") };
+    let src = format!(".r = parse_timestamp!(.s, {})\n.i = to_unix_timestamp(.r, unit: \"nanoseconds\")\n", vrlx::str_lit(fmt));
+    let res = match vrlx::compile(&src) {
+        Ok(r) => r,
+        Err(d) => return V::fail(format!("program rejected: {}", vrlx::diag_summary(&d))),
+    };
+    let ev = vrlx::event_of(&[("s", &TV::Str(text.clone()))]);
+    let a = vrlx::run_tz(&res.program, ev.clone(), vrlx::empty_object(), &timez::zone(c.zone_a));
+    let b = vrlx::run_tz(&res.program, ev, vrlx::empty_object(), &timez::zone(c.zone_b));
+    if a.end != b.end || a.event != b.event {
+        return V::fail(format!(
+            "parse_timestamp!({text:?}, {fmt:?}) depends on the configured zone: under {} -> {:?} / {}, under {} -> {:?} / {}",
+            timez::zone_name(c.zone_a), a.end, a.event, timez::zone_name(c.zone_b), b.end, b.event
+        ));
+    }
+    let want = c.secs as i128 * 1_000_000_000 + i128::from(c.nanos);
+    if a.end.is_success() {
+        let got = a.event.get(&vrl::path::parse_value_path("i").expect("path")).and_then(|v| v.as_integer());
+        if got.map(i128::from) != Some(want) {
+            return V::fail(format!("parse_timestamp!({text:?}, {fmt:?}) under {} gives {got:?} ns, the text names {want} ns", timez::zone_name(c.zone_a)));
+        }
+    } else {
+        return V::fail(format!("parse_timestamp!({text:?}, {fmt:?}) failed under {}: {:?}", timez::zone_name(c.zone_a), a.end));
+    }
+    V::pass().nontrivial(timez::offset_at(c.zone_a, &t) != timez::offset_at(c.zone_b, &t)).class_if(c.nanos != 0, "with_fraction")
+}
+
+fn unix_case() -> impl Strategy<Value = UnixCase> {
+    (
+        prop_oneof![3 => 0i64..2_000_000_000, 1 => (0u8..6, 0i64..2_000_000_000, -7200i64..7200).prop_map(|(z, s, d)| timez::near_transition(z, s, d).clamp(0, 2_000_000_000))],
+        prop_oneof![2 => Just(0u32), 1 => 1u32..1_000_000_000],
+        0u8..7,
+        0u8..7,
+    )
+        .prop_map(|(secs, nanos, a, b)| UnixCase { secs, nanos, zone_a: a, zone_b: if a == b { (b + 1) % 7 } else { b } })
+}
+
 pub fn run(r: &mut Run) {
     let excl = r.excluded("c36_syslog_3164_with_year");
     r.sub("two_zone_runs", 120_000, 8_000_000, move || case(excl), check);
+    let excl_hour = r.excluded("c36_unix_seconds_repeated_hour");
+    r.sub("unix_seconds_text", 60_000, 3_000_000, unix_case, move |c| check_unix(c, excl_hour));
 }
